@@ -1,4 +1,37 @@
-import Stbem.Model.SingleLayer
-namespace Stbem.SL
-theorem placeholder_C07 : True := trivial
-end Stbem.SL
+import Stbem.Props.SL
+import Stbem.Props.Formulas
+import Stbem.Props.C15
+
+/-!
+# C07 — Pointwise evaluation on the boundary
+
+the evaluation plan: zero iff t ≤ t0, in-element split graded towards the singular point, outside branch graded towards the seam-aware nearer end point, end-point cases; the inline kernels equal the generated time-integrated kernel; the closed-form variant equals steval_1 / steval_2 = ∓gint combinations in all cases and never falls through. Accuracy zones are search-only.
+
+The theorems are proved in `Stbem.Props.SL` (model `Stbem.Model.SingleLayer`, tied to `src/single_layer.py` by exact
+execution of the real code), `Stbem.Props.Formulas` (terms regenerated from the Python source on every run) and
+`Stbem.Props.C15`; this file lists, as aliases, the ones that carry property C07.
+-/
+namespace Stbem.C07
+
+alias evalPlan_zero := Stbem.SL.evalPlan_zero
+alias eval_acausal := Stbem.SL.eval_acausal
+alias evalPlan_inElem := Stbem.SL.evalPlan_inElem
+alias evalPlan_outside := Stbem.SL.evalPlan_outside
+alias evalPlan_endpoints := Stbem.SL.evalPlan_endpoints
+alias evalKernel_tik := Stbem.SL.evalKernel_tik
+alias evaluateExact_cases := Stbem.SL.evaluateExact_cases
+alias evaluateExact_hk := Stbem.SL.evaluateExact_hk
+alias steval_2_eq := Stbem.SL.steval_2_eq
+alias tik_eq := Stbem.Formulas.R.tik_eq
+alias tik_zero := Stbem.Formulas.R.tik_zero
+alias tik_split := Stbem.Formulas.R.tik_split
+alias g_zero := Stbem.Formulas.R.g_zero
+alias gint2_eq := Stbem.Formulas.R.gint2_eq
+alias steval1_eq := Stbem.Formulas.R.steval1_eq
+alias steval2_eq := Stbem.Formulas.R.steval2_eq
+alias steval_1_zero := Stbem.Formulas.R.steval_1_zero
+alias steval_2_zero := Stbem.Formulas.R.steval_2_zero
+alias g_deriv := Stbem.Formulas.R.g_deriv
+alias ei_deriv := Stbem.Formulas.R.ei_deriv
+
+end Stbem.C07
